@@ -1,4 +1,542 @@
 import Reduino.Toolchain.Pio
-/- helper lemmas for Props/C13.lean (may import individual Mathlib modules) -/
+/- helper lemmas for Props/C13.lean (core list lemmas only; no Mathlib needed) -/
 namespace Reduino.Lemmas.C13
+open Reduino.Toolchain
+
+/-! ### registry -/
+
+theorem any_name_iff (reg : Registry) (p : String) :
+    reg.any (fun pb => pb.1 == p) = true ↔ p ∈ reg.map (·.1) := by
+  simp only [List.any_eq_true, beq_iff_eq, List.mem_map]
+
+theorem validate_ok_iff (reg : Registry) (p b : String) :
+    validate reg p b = .ok ↔ (p ∈ reg.map (·.1) ∧ lastOwner reg b = some p) := by
+  unfold validate
+  rw [← any_name_iff]
+  by_cases h : reg.any (fun pb => pb.1 == p) = true
+  · simp only [h, not_true_eq_false, if_false, true_and]
+    cases hl : lastOwner reg b with
+    | none => simp
+    | some q =>
+      by_cases hq : q = p
+      · simp [hq]
+      · simp [hq]
+  · simp [h]
+
+theorem lastOwner_some_mem (reg : Registry) (b p : String) (h : lastOwner reg b = some p) :
+    ∃ bs, (p, bs) ∈ reg ∧ b ∈ bs := by
+  induction reg with
+  | nil => simp [lastOwner] at h
+  | cons x rest ih =>
+    obtain ⟨q, cs⟩ := x
+    unfold lastOwner at h
+    cases hl : lastOwner rest b with
+    | some r =>
+      rw [hl] at h
+      simp only [Option.some.injEq] at h
+      subst h
+      obtain ⟨bs, h1, h2⟩ := ih hl
+      exact ⟨bs, List.mem_cons_of_mem _ h1, h2⟩
+    | none =>
+      rw [hl] at h
+      simp only at h
+      split at h
+      · simp only [Option.some.injEq] at h
+        subst h
+        exact ⟨cs, List.mem_cons_self, by assumption⟩
+      · simp at h
+
+theorem lastOwner_none (reg : Registry) (b : String) (h : lastOwner reg b = none) :
+    ∀ p bs, (p, bs) ∈ reg → b ∉ bs := by
+  induction reg with
+  | nil => simp
+  | cons x rest ih =>
+    obtain ⟨q, cs⟩ := x
+    unfold lastOwner at h
+    cases hl : lastOwner rest b with
+    | some r => rw [hl] at h; simp at h
+    | none =>
+      rw [hl] at h
+      simp only at h
+      split at h
+      · simp at h
+      · intro p bs hm
+        rcases List.mem_cons.1 hm with e | hm
+        · simp only [Prod.mk.injEq] at e
+          obtain ⟨rfl, rfl⟩ := e
+          assumption
+        · exact ih hl p bs hm
+
+theorem lastOwner_of_partition (reg : Registry) (hp : Partition reg) (p b : String) (bs : List String)
+    (h1 : (p, bs) ∈ reg) (h2 : b ∈ bs) : lastOwner reg b = some p := by
+  cases hl : lastOwner reg b with
+  | none => exact absurd h2 (lastOwner_none reg b hl p bs h1)
+  | some q =>
+    obtain ⟨cs, h3, h4⟩ := lastOwner_some_mem reg b q hl
+    rw [hp.2 p bs q cs b h1 h3 h2 h4]
+
+theorem validate_exact' (reg : Registry) (hp : Partition reg) (p b : String) :
+    validate reg p b = .ok ↔
+      ((∃ bs, (p, bs) ∈ reg ∧ b ∈ bs) ∧ ∀ q cs, (q, cs) ∈ reg → b ∈ cs → q = p) := by
+  rw [validate_ok_iff]
+  constructor
+  · rintro ⟨_, h⟩
+    obtain ⟨bs, h1, h2⟩ := lastOwner_some_mem reg b p h
+    exact ⟨⟨bs, h1, h2⟩, fun q cs h3 h4 => hp.2 q cs p bs b h3 h1 h4 h2⟩
+  · rintro ⟨⟨bs, h1, h2⟩, _⟩
+    exact ⟨List.mem_map.2 ⟨(p, bs), h1, rfl⟩, lastOwner_of_partition reg hp p b bs h1 h2⟩
+
+/-! ### lib de-duplication, env name -/
+
+theorem nodup_reverse' {α} (l : List α) (h : l.Nodup) : l.reverse.Nodup := by
+  unfold List.Nodup at *; rw [List.pairwise_reverse]; exact h.imp (fun h => h.symm)
+
+theorem dedup_gen (libs : List Str) : ∀ (acc : List Str), acc.Nodup →
+    (dedupLibs libs acc).Nodup ∧
+    (∀ l, l ∈ dedupLibs libs acc ↔ (l ∈ acc ∨ (l ∈ libs ∧ l ≠ []))) ∧
+    ∃ t, dedupLibs libs acc = acc.reverse ++ t ∧ t.Sublist libs := by
+  induction libs with
+  | nil =>
+    intro acc hn
+    refine ⟨by simpa [dedupLibs] using nodup_reverse' _ hn, by simp [dedupLibs], [], by simp [dedupLibs], List.Sublist.refl _⟩
+  | cons l rest ih =>
+    intro acc hn
+    unfold dedupLibs
+    by_cases h : l = [] ∨ l ∈ acc
+    · rw [if_pos h]
+      obtain ⟨h1, h2, t, h3, h4⟩ := ih acc hn
+      refine ⟨h1, ?_, t, h3, h4.cons _⟩
+      intro l'
+      rw [h2 l']
+      constructor
+      · rintro (h5 | ⟨h5, h6⟩)
+        · exact Or.inl h5
+        · exact Or.inr ⟨List.mem_cons_of_mem _ h5, h6⟩
+      · rintro (h5 | ⟨h5, h6⟩)
+        · exact Or.inl h5
+        · rcases List.mem_cons.1 h5 with rfl | h5
+          · rcases h with h | h
+            · exact absurd h h6
+            · exact Or.inl h
+          · exact Or.inr ⟨h5, h6⟩
+    · rw [if_neg h]
+      have hl : l ≠ [] := fun e => h (Or.inl e)
+      have hm : l ∉ acc := fun e => h (Or.inr e)
+      obtain ⟨h1, h2, t, h3, h4⟩ := ih (l :: acc) (List.nodup_cons.2 ⟨hm, hn⟩)
+      refine ⟨h1, ?_, l :: t, by rw [h3]; simp, h4.cons_cons _⟩
+      intro l'
+      rw [h2 l']
+      constructor
+      · rintro (h5 | ⟨h5, h6⟩)
+        · rcases List.mem_cons.1 h5 with rfl | h5
+          · exact Or.inr ⟨List.mem_cons_self, hl⟩
+          · exact Or.inl h5
+        · exact Or.inr ⟨List.mem_cons_of_mem _ h5, h6⟩
+      · rintro (h5 | ⟨h5, h6⟩)
+        · exact Or.inl (List.mem_cons_of_mem _ h5)
+        · rcases List.mem_cons.1 h5 with rfl | h5
+          · exact Or.inl List.mem_cons_self
+          · exact Or.inr ⟨h5, h6⟩
+
+theorem dedup_id_gen (libs : List Str) : ∀ (acc : List Str), libs.Nodup →
+    (∀ l ∈ libs, l ≠ [] ∧ l ∉ acc) → dedupLibs libs acc = acc.reverse ++ libs := by
+  induction libs with
+  | nil => intro acc _ _; simp [dedupLibs]
+  | cons l rest ih =>
+    intro acc hn he
+    unfold dedupLibs
+    have h0 := he l List.mem_cons_self
+    rw [if_neg (by rintro (h | h); exact h0.1 h; exact h0.2 h)]
+    rw [List.nodup_cons] at hn
+    rw [ih (l :: acc) hn.2]
+    · simp
+    · intro l' hl'
+      refine ⟨(he l' (List.mem_cons_of_mem _ hl')).1, ?_⟩
+      intro h
+      rcases List.mem_cons.1 h with rfl | h
+      · exact hn.1 hl'
+      · exact (he l' (List.mem_cons_of_mem _ hl')).2 h
+
+theorem sanitizeGo_word (s : Str) : ∀ (b : Bool), ∀ c ∈ sanitizeGo b s, isWord c = true := by
+  induction s with
+  | nil => intro b c h; simp [sanitizeGo] at h
+  | cons x rest ih =>
+    intro b c h
+    unfold sanitizeGo at h
+    split at h
+    · rcases List.mem_cons.1 h with rfl | h
+      · assumption
+      · exact ih _ c h
+    · split at h
+      · exact ih _ c h
+      · rcases List.mem_cons.1 h with rfl | h
+        · decide
+        · exact ih _ c h
+
+/-! ### strip / rstrip / lstrip -/
+
+theorem rstrip_nil : rstrip [] = [] := rfl
+
+theorem rstrip_cons (c : Char) (s : Str) :
+    rstrip (c :: s) = if rstrip s = [] then (if isSpace c then [] else [c]) else c :: rstrip s := by
+  unfold rstrip
+  rw [List.reverse_cons, List.dropWhile_append]
+  cases hd : List.dropWhile isSpace s.reverse with
+  | nil =>
+    simp only [List.isEmpty_nil, if_true, List.reverse_nil]
+    by_cases hc : isSpace c = true <;> simp [hc]
+  | cons x xs => simp
+
+theorem rstrip_cons_nonspace (c : Char) (s : Str) (hc : isSpace c = false) :
+    rstrip (c :: s) = c :: rstrip s := by
+  rw [rstrip_cons]; split
+  · next h => simp [hc, h]
+  · rfl
+
+theorem rstrip_append_nonspace (k t : Str) (hk : ∀ c ∈ k, isSpace c = false) :
+    rstrip (k ++ t) = k ++ rstrip t := by
+  induction k with
+  | nil => rfl
+  | cons c k ih =>
+    rw [List.cons_append, rstrip_cons_nonspace _ _ (hk c List.mem_cons_self),
+      ih (fun c h => hk c (List.mem_cons_of_mem _ h))]
+    rfl
+
+theorem rstrip_append_of_ne (a b : Str) (hb : rstrip b ≠ []) : rstrip (a ++ b) = a ++ rstrip b := by
+  induction a with
+  | nil => rfl
+  | cons c a ih =>
+    rw [List.cons_append, rstrip_cons, ih, if_neg (by simp [hb])]
+    rfl
+
+theorem rstrip_append_of_eq (a b : Str) (hb : rstrip b = []) : rstrip (a ++ b) = rstrip a := by
+  induction a with
+  | nil => rw [List.nil_append, hb]; rfl
+  | cons c a ih => rw [List.cons_append, rstrip_cons, ih, ← rstrip_cons]
+
+theorem rstrip_length_le (s : Str) : (rstrip s).length ≤ s.length := by
+  induction s with
+  | nil => simp [rstrip]
+  | cons c s ih =>
+    rw [rstrip_cons]; split
+    · split <;> simp
+    · simpa using ih
+
+theorem rstrip_idem (s : Str) : rstrip (rstrip s) = rstrip s := by
+  induction s with
+  | nil => rfl
+  | cons c s ih =>
+    rw [rstrip_cons]
+    split
+    · by_cases hc : isSpace c = true
+      · simp [hc, rstrip_nil]
+      · simp only [hc, Bool.false_eq_true, if_false]
+        rw [rstrip_cons_nonspace _ _ (by simpa using hc)]; rfl
+    · next h => rw [rstrip_cons, ih, if_neg h]
+
+theorem lstrip_cons_space (c : Char) (s : Str) (hc : isSpace c = true) : lstrip (c :: s) = lstrip s := by
+  simp [lstrip, hc]
+
+theorem lstrip_cons_nonspace (c : Char) (s : Str) (hc : isSpace c = false) : lstrip (c :: s) = c :: s := by
+  simp [lstrip, hc]
+
+theorem lstrip_length_le (s : Str) : (lstrip s).length ≤ s.length := by
+  induction s with
+  | nil => simp [lstrip]
+  | cons c s ih =>
+    by_cases hc : isSpace c = true
+    · rw [lstrip_cons_space _ _ hc]; simp; omega
+    · rw [lstrip_cons_nonspace _ _ (by simpa using hc)]; simp
+
+theorem lstrip_rstrip_comm (s : Str) : lstrip (rstrip s) = rstrip (lstrip s) := by
+  induction s with
+  | nil => rfl
+  | cons c s ih =>
+    by_cases hc : isSpace c = true
+    · rw [lstrip_cons_space _ _ hc, rstrip_cons]
+      split
+      · next h => rw [← ih, h]
+      · rw [lstrip_cons_space _ _ hc, ih]
+    · have hc' : isSpace c = false := by simpa using hc
+      rw [lstrip_cons_nonspace _ _ hc', rstrip_cons_nonspace _ _ hc', lstrip_cons_nonspace _ _ hc']
+
+theorem strip_rstrip (s : Str) : strip (rstrip s) = strip s := by
+  unfold strip; rw [lstrip_rstrip_comm, rstrip_idem]
+
+theorem strip_cons_space (c : Char) (s : Str) (hc : isSpace c = true) : strip (c :: s) = strip s := by
+  unfold strip; rw [lstrip_cons_space _ _ hc]
+
+theorem strip_cons_nonspace (c : Char) (s : Str) (hc : isSpace c = false) :
+    strip (c :: s) = c :: rstrip s := by
+  unfold strip; rw [lstrip_cons_nonspace _ _ hc, rstrip_cons_nonspace _ _ hc]
+
+theorem strip_nil : strip [] = [] := rfl
+
+/-- a strip-invariant string is rstrip-invariant -/
+theorem rstrip_of_strip (v : Str) (h : strip v = v) : rstrip v = v := by
+  cases v with
+  | nil => rfl
+  | cons c t =>
+    by_cases hc : isSpace c = true
+    · exfalso
+      rw [strip_cons_space _ _ hc] at h
+      have h1 : (strip t).length ≤ t.length := by
+        unfold strip
+        exact Nat.le_trans (rstrip_length_le _) (lstrip_length_le _)
+      rw [h] at h1; simp only [List.length_cons] at h1; omega
+    · have hc' : isSpace c = false := by simpa using hc
+      rw [strip_cons_nonspace _ _ hc'] at h
+      rw [rstrip_cons_nonspace _ _ hc', h]
+
+theorem head_nonspace_of_strip (c : Char) (t : Str) (h : strip (c :: t) = c :: t) : isSpace c = false := by
+  by_cases hc : isSpace c = true
+  · exfalso
+    rw [strip_cons_space _ _ hc] at h
+    have h1 : (strip t).length ≤ t.length := by
+      unfold strip
+      exact Nat.le_trans (rstrip_length_le _) (lstrip_length_le _)
+    rw [h] at h1; simp only [List.length_cons] at h1; omega
+  · simpa using hc
+
+
+/-! ### feed on the kinds of line the renderer produces -/
+
+theorem sectionName_of_ne (c0 : Char) (t : Str) (h : c0 ≠ '[') : sectionName? (c0 :: t) = none := by
+  unfold sectionName?
+  split
+  · next heq => simp at heq; exact absurd heq.1 h
+  · rfl
+
+theorem sectionName_header (body : Str) (hb : body ≠ []) :
+    sectionName? ('[' :: (body ++ [']'])) = some body := by
+  simp [sectionName?, hb]
+
+theorem feed_of_indent0 (st : PState) (line : Str) (h0 : indentOf line = 0) (hs : strip line ≠ [])
+    (hc1 : (strip line).head? ≠ some '#') (hc2 : (strip line).head? ≠ some ';') :
+    feed st line = feed.feedHead st line (strip line) 0 := by
+  unfold feed
+  simp only [hs, if_false, h0, hc1, hc2, or_self]
+  cases st.cur <;> cases st.optIndent <;> simp
+
+theorem indentOf_cons_nonspace (c : Char) (t : Str) (hc : isSpace c = false) : indentOf (c :: t) = 0 := by
+  simp [indentOf, hc]
+
+theorem feedHead_kv (st : PState) (sec : Section) (line : Str) (c0 : Char) (k w : Str) (ind : Nat)
+    (hcur : st.cur = some sec) (h0 : c0 ≠ '[')
+    (hk : ∀ c ∈ c0 :: k, isSpace c = false ∧ isDelim c = false) :
+    feed.feedHead st line (c0 :: (k ++ ' ' :: '=' :: w)) ind =
+      some { st with cur := some { sec with opts := sec.opts ++ [((c0 :: k).map Char.toLower, [strip w])] },
+                     optIndent := some ind } := by
+  unfold feed.feedHead
+  rw [sectionName_of_ne _ _ h0]
+  simp only [hcur]
+  have e : c0 :: (k ++ ' ' :: '=' :: w) = (c0 :: k ++ [' ']) ++ '=' :: w := by simp
+  have hp : ∀ a ∈ c0 :: k ++ [' '], (fun c => !isDelim c) a = true := by
+    intro a ha
+    rcases List.mem_append.1 ha with ha | ha
+    · simp [(hk a ha).2]
+    · simp at ha; subst ha; decide
+  rw [e, List.takeWhile_append_of_pos hp, List.dropWhile_append_of_pos hp]
+  have h1 : List.takeWhile (fun c => !isDelim c) ('=' :: w) = [] := by
+    simp [isDelim]
+  have h2 : List.dropWhile (fun c => !isDelim c) ('=' :: w) = '=' :: w := by
+    simp [isDelim]
+  rw [h1, h2, List.append_nil, rstrip_append_nonspace _ _ (fun c h => (hk c h).1)]
+  have h3 : rstrip [' '] = [] := by decide
+  rw [h3, List.append_nil]
+  simp
+
+theorem feed_kv (st : PState) (sec : Section) (c0 : Char) (k w : Str)
+    (hcur : st.cur = some sec) (h0 : c0 ≠ '[') (h1 : c0 ≠ '#') (h2 : c0 ≠ ';')
+    (hk : ∀ c ∈ c0 :: k, isSpace c = false ∧ isDelim c = false) :
+    feed st (c0 :: (k ++ ' ' :: '=' :: w)) =
+      some { st with cur := some { sec with opts := sec.opts ++ [((c0 :: k).map Char.toLower, [strip w])] },
+                     optIndent := some 0 } := by
+  have hc0 := (hk c0 List.mem_cons_self).1
+  have hs : strip (c0 :: (k ++ ' ' :: '=' :: w)) = c0 :: (k ++ ' ' :: '=' :: rstrip w) := by
+    rw [strip_cons_nonspace _ _ hc0]
+    have e : k ++ ' ' :: '=' :: w = (k ++ [' ']) ++ '=' :: w := by simp
+    have hd : isSpace '=' = false := by decide
+    rw [e, rstrip_append_of_ne _ _ (by rw [rstrip_cons_nonspace _ _ hd]; simp),
+      rstrip_cons_nonspace _ _ hd]
+    simp
+  rw [feed_of_indent0 st _ (indentOf_cons_nonspace _ _ hc0) (by rw [hs]; simp)
+    (by rw [hs]; simpa using h1) (by rw [hs]; simpa using h2), hs,
+    feedHead_kv st sec _ c0 k (rstrip w) 0 hcur h0 hk, strip_rstrip]
+
+theorem feed_header (st : PState) (body : Str) (hb : body ≠ []) :
+    feed st ('[' :: (body ++ [']'])) =
+      some { done := closeCur st, cur := some { name := body, opts := [] }, optIndent := none } := by
+  have hs : strip ('[' :: (body ++ [']'])) = '[' :: (body ++ [']']) := by
+    rw [strip_cons_nonspace _ _ (by decide), rstrip_append_of_ne _ _ (by decide)]
+    have : rstrip [']'] = [']'] := by decide
+    rw [this]
+  rw [feed_of_indent0 st _ (indentOf_cons_nonspace _ _ (by decide)) (by rw [hs]; simp)
+    (by rw [hs]; simp) (by rw [hs]; simp), hs]
+  unfold feed.feedHead
+  rw [sectionName_header _ hb]
+
+theorem appendToLast_snoc (n : Str) (xs : List (Str × List Str)) (k : Str) (vs : List Str) (v : Str) :
+    appendToLast { name := n, opts := xs ++ [(k, vs)] } v = { name := n, opts := xs ++ [(k, vs ++ [v])] } := by
+  simp [appendToLast]
+
+theorem feed_blank (st : PState) (sec : Section) (oi : Nat) (hcur : st.cur = some sec)
+    (hoi : st.optIndent = some oi) :
+    feed st [] = some { st with cur := some (appendToLast sec []) } := by
+  unfold feed
+  simp [strip_nil, hcur, hoi]
+
+theorem feed_cont (st : PState) (sec : Section) (lib : Str) (hcur : st.cur = some sec)
+    (hoi : st.optIndent = some 0) (hs : strip lib = lib) (hne : lib ≠ [])
+    (hc1 : lib.head? ≠ some '#') (hc2 : lib.head? ≠ some ';') :
+    feed st (' ' :: ' ' :: lib) = some { st with cur := some (appendToLast sec lib) } := by
+  have hsp : isSpace ' ' = true := by decide
+  have hs' : strip (' ' :: ' ' :: lib) = lib := by
+    rw [strip_cons_space _ _ hsp, strip_cons_space _ _ hsp, hs]
+  have hind : indentOf (' ' :: ' ' :: lib) > 0 := by
+    simp [indentOf, hsp]
+  unfold feed
+  simp only [hs', hne, if_false, hc1, hc2, or_self, hcur, hoi, hind, if_true]
+
+
+theorem feed_kv' (st : PState) (sec : Section) (line key v : Str) (c0 : Char) (k w : Str)
+    (hline : line = c0 :: (k ++ ' ' :: '=' :: w)) (hkey : (c0 :: k).map Char.toLower = key)
+    (hv : strip w = v)
+    (hcur : st.cur = some sec) (h0 : c0 ≠ '[') (h1 : c0 ≠ '#') (h2 : c0 ≠ ';')
+    (hk : ∀ c ∈ c0 :: k, isSpace c = false ∧ isDelim c = false) :
+    feed st line =
+      some { st with cur := some { sec with opts := sec.opts ++ [(key, [v])] }, optIndent := some 0 } := by
+  rw [hline, feed_kv st sec c0 k w hcur h0 h1 h2 hk, hkey, hv]
+
+/-- what the reader needs of a library name -/
+def LibOk (l : Str) : Prop :=
+  strip l = l ∧ l ≠ [] ∧ l.head? ≠ some '#' ∧ l.head? ≠ some ';' ∧ ∀ c ∈ l, c ≠ '\n'
+
+theorem foldl_cont (done : List Section) (n : Str) (xs : List (Str × List Str)) (k : Str)
+    (libs : List Str) (hl : ∀ l ∈ libs, LibOk l) : ∀ vs : List Str,
+    List.foldlM feed
+      ({ done := done, cur := some { name := n, opts := xs ++ [(k, vs)] }, optIndent := some 0 } : PState)
+      (libs.map (fun l => ' ' :: ' ' :: l)) =
+    some { done := done, cur := some { name := n, opts := xs ++ [(k, vs ++ libs)] }, optIndent := some 0 } := by
+  induction libs with
+  | nil => intro vs; simp
+  | cons l rest ih =>
+    intro vs
+    obtain ⟨h1, h2, h3, h4, _⟩ := hl l List.mem_cons_self
+    rw [List.map_cons, List.foldlM_cons, feed_cont _ _ l rfl rfl h1 h2 h3 h4]
+    simp only [appendToLast_snoc, Option.bind_eq_bind, Option.bind_some]
+    rw [ih (fun l h => hl l (List.mem_cons_of_mem _ h)) (vs ++ [l])]
+    simp
+
+theorem intercalate_rstrip (u : List Str) (hne : u ≠ []) (hu : ∀ l ∈ u, rstrip l = l ∧ l ≠ []) :
+    rstrip (List.intercalate ['\n'] u) = List.intercalate ['\n'] u ∧ rstrip (List.intercalate ['\n'] u) ≠ [] := by
+  induction u with
+  | nil => exact absurd rfl hne
+  | cons l rest ih =>
+    cases rest with
+    | nil =>
+      rw [List.intercalate_singleton]
+      have := hu l List.mem_cons_self
+      exact ⟨this.1, by rw [this.1]; exact this.2⟩
+    | cons l' rest' =>
+      have ih' := ih (by simp) (fun x h => hu x (List.mem_cons_of_mem _ h))
+      rw [List.intercalate_cons_cons, rstrip_append_of_ne _ _ ih'.2, ih'.1]
+      exact ⟨rfl, by simp⟩
+
+theorem valueItems_join (u : List Str) (hne : u ≠ []) (hu : ∀ l ∈ u, LibOk l) :
+    valueItems (joinValue ([] :: u)) = u := by
+  have hr : ∀ l ∈ u, rstrip l = l ∧ l ≠ [] := fun l h => ⟨rstrip_of_strip l (hu l h).1, (hu l h).2.1⟩
+  have hj := intercalate_rstrip u hne hr
+  have e : joinValue ([] :: u) = List.intercalate ['\n'] ([] :: u) := by
+    unfold joinValue
+    cases u with
+    | nil => exact absurd rfl hne
+    | cons l ls =>
+      rw [List.intercalate_cons_cons, rstrip_append_of_ne _ _ hj.2, hj.1]
+  rw [e]
+  unfold valueItems
+  rw [List.splitOn_intercalate '\n' _ (by simp)]
+  · rw [List.map_cons, strip_nil, List.filter_cons_of_neg (by simp)]
+    have hm : List.map strip u = u := by
+      conv => rhs; rw [← List.map_id u]
+      exact List.map_congr_left (fun l h => (hu l h).1)
+    rw [hm, List.filter_eq_self]
+    intro l h; simpa using (hu l h).2.1
+  · intro l h
+    rcases List.mem_cons.1 h with rfl | h
+    · simp
+    · intro hc; exact (hu l h).2.2.2.2 _ hc rfl
+
+
+/-- the reader's state after the five fixed lines -/
+theorem fold_five (c : Cfg) (hport : strip c.port = c.port) (hplat : strip c.platform = c.platform)
+    (hboard : strip c.board = c.board) :
+    List.foldlM feed ({} : PState)
+      [ "[env:".toList ++ sanitize c.board ++ "]".toList,
+        "platform = ".toList ++ c.platform,
+        "board = ".toList ++ c.board,
+        "framework = arduino".toList,
+        "upload_port = ".toList ++ c.port ] =
+    some { done := [],
+           cur := some { name := "env:".toList ++ sanitize c.board,
+                         opts := [ ("platform".toList, [c.platform]), ("board".toList, [c.board]),
+                                   ("framework".toList, ["arduino".toList]) ] ++
+                                 [("upload_port".toList, [c.port])] },
+           optIndent := some 0 } := by
+  have hsp : isSpace ' ' = true := by decide
+  have e1 : "[env:".toList ++ sanitize c.board ++ "]".toList
+      = '[' :: (("env:".toList ++ sanitize c.board) ++ [']']) := rfl
+  have f1 := feed_header ({} : PState) ("env:".toList ++ sanitize c.board) (by simp)
+  rw [← e1] at f1
+  simp only [List.foldlM_cons, List.foldlM_nil, f1, Option.bind_eq_bind, Option.bind_some]
+  rw [feed_kv' _ _ ("platform = ".toList ++ c.platform) "platform".toList c.platform 'p' "latform".toList (' ' :: c.platform) rfl (by decide)
+    (by rw [strip_cons_space _ _ hsp, hplat]) rfl (by decide) (by decide) (by decide) (by decide)]
+  simp only [Option.bind_some]
+  rw [feed_kv' _ _ ("board = ".toList ++ c.board) "board".toList c.board 'b' "oard".toList (' ' :: c.board) rfl (by decide)
+    (by rw [strip_cons_space _ _ hsp, hboard]) rfl (by decide) (by decide) (by decide) (by decide)]
+  simp only [Option.bind_some]
+  rw [feed_kv' _ _ "framework = arduino".toList "framework".toList "arduino".toList 'f' "ramework".toList " arduino".toList rfl (by decide)
+    (by decide) rfl (by decide) (by decide) (by decide) (by decide)]
+  simp only [Option.bind_some]
+  rw [feed_kv' _ _ ("upload_port = ".toList ++ c.port) "upload_port".toList c.port 'u' "pload_port".toList (' ' :: c.port) rfl (by decide)
+    (by rw [strip_cons_space _ _ hsp, hport]) rfl (by decide) (by decide) (by decide) (by decide)]
+  simp [closeCur]
+
+theorem joinValue_single (v : Str) (h : strip v = v) : joinValue [v] = v := by
+  unfold joinValue; rw [List.intercalate_singleton, rstrip_of_strip v h]
+
+theorem joinValue_blank (v : Str) (h : strip v = v) : joinValue [v, []] = v := by
+  unfold joinValue
+  rw [List.intercalate_cons_cons, List.intercalate_singleton, List.append_nil,
+    rstrip_append_of_eq _ _ (by decide), rstrip_of_strip v h]
+
+theorem roundtrip_core (c : Cfg) (hport : strip c.port = c.port) (hplat : strip c.platform = c.platform)
+    (hboard : strip c.board = c.board) (hlibs : ∀ l ∈ dedupLibs c.libs [], LibOk l) :
+    ∃ libv, parseLines (iniLines c) = some
+      [ ("env:".toList ++ sanitize c.board,
+          [ ("platform".toList, c.platform), ("board".toList, c.board),
+            ("framework".toList, "arduino".toList), ("upload_port".toList, c.port) ] ++
+          (if dedupLibs c.libs [] = [] then [] else [("lib_deps".toList, libv)])) ] ∧
+      (dedupLibs c.libs [] ≠ [] → valueItems libv = dedupLibs c.libs []) := by
+  have h5 := fold_five c hport hplat hboard
+  have hard : joinValue ["arduino".toList] = "arduino".toList := joinValue_single _ (by decide)
+  have hard' : joinValue [['a', 'r', 'd', 'u', 'i', 'n', 'o']] = ['a', 'r', 'd', 'u', 'i', 'n', 'o'] := hard
+  unfold iniLines libLines parseLines
+  cases hu : dedupLibs c.libs [] with
+  | nil =>
+    refine ⟨[], ?_, fun h => absurd rfl h⟩
+    simp only [List.append_nil, h5]
+    simp [closeCur, joinValue_single, hport, hplat, hboard, hard']
+  | cons l ls =>
+    rw [hu] at hlibs
+    refine ⟨joinValue ([] :: l :: ls), ?_, fun _ => valueItems_join _ (by simp) hlibs⟩
+    simp only [List.foldlM_append, h5, Option.bind_eq_bind, Option.bind_some, List.foldlM_cons]
+    rw [feed_blank _ _ 0 rfl rfl]
+    simp only [appendToLast_snoc, Option.bind_some]
+    rw [feed_kv' _ _ "lib_deps =".toList "lib_deps".toList [] 'l' "ib_deps".toList [] rfl (by decide)
+      rfl rfl (by decide) (by decide) (by decide) (by decide)]
+    simp only [Option.bind_some]
+    rw [foldl_cont _ _ _ _ _ hlibs]
+    simp [closeCur, joinValue_single, joinValue_blank, hport, hplat, hboard, hard']
+
 end Reduino.Lemmas.C13
